@@ -35,7 +35,9 @@ KANI = {
                                                                                        "c17_touch_length_counts_each_touch_bounded_3": "3 touches, lengths <= 4"}},
     "C18": {"complete": ["u9_xorshift_is_documented_mixer", "u9_hasher_one_chunk"], "bounded": {}},
 }
-KANI_THOROUGH_EXTRA = {"C10": ["u9_hash_value_vu64_all_values"], "C12": ["u9_hash_value_vu64_all_values"]}
+# (u9_hash_value_vu64_all_values — one harness over a symbolic-length key — needs > 24 GB and 19 min; the nine per-length harnesses
+#  u9_hash_value_vu64_len_1..9 cover the same values completely, so it is not run)
+KANI_THOROUGH_EXTRA = {}
 KANI_THOROUGH_BOUNDED = {"C14": {"c14_bulk_get_is_elementwise_batch_4": "map <= 2 entries, batch of 4 one-byte keys (every order, repeats allowed)"}}
 VERUS_PROPS = set()   # filled from the overlay (@serves)
 # obligations that are verified in a property's closure but are not part of that property's statement
